@@ -110,6 +110,18 @@ def judge_text(sh, backend, top, what, src, case, mech_fn, extra_steps=None, ncy
   except OSError:
     pass
   sh.count("texts_translated")
+  if sh.counters["texts_translated"] % 2 == 0:
+    # every text the pass emits for the design has to be right, also the one of a SECOND translation of the same elaborated object
+    # (a translator that changes the design's own data - constants, parameter lists - while it works shows there): judge that one
+    try:
+      text2, fn2, topmod2 = cosim.translate(top, backend)
+      try: os.remove(fn2)
+      except OSError: pass
+      sh.count("second_translations_judged")
+      if text2 != text: sh.count("second_translation_text_differs_from_first")
+      text, topmod = text2, topmod2
+    except Exception as e:
+      sh.count("second_translation_raised:" + type(e).__name__)
   if text_hook is not None and not text_hook(text):
     return False
   try:
